@@ -222,26 +222,32 @@ def run_construct(spec, rec, PhiManip):
             rec.check("pure-split-is-copy", not np.any(off != 0), site=site, tags=tags)
             continue
         full = props + [1.0 - float(np.sum(props))] if nd > 2 else [props[0], 1 - props[0]]
+        # the new population's axis has a grid argument of its own: every third case gives it another grid than its parents'
+        # (same length with other spacing, or finer)
+        xn = xx
+        if ci % 3 == 1:
+            xn = gen.make_grid(rng, L + int(rng.choice([0, 0, 3])), kind=str(rng.choice([k_ for k_ in ["default", "uniform", "quadratic"] if k_ != gk])))
+        tags["new_axis_own_grid"] = xn is not xx
         if nd == 2:
             site = "PhiManip.phi_2D_to_3D_admix"
-            call = lambda: PhiManip.phi_2D_to_3D_admix(phi, props[0], xx, xx, xx)
+            call = lambda: PhiManip.phi_2D_to_3D_admix(phi, props[0], xx, xx, xn)
         elif nd == 3:
             site = "PhiManip.phi_3D_to_4D"
-            call = lambda: PhiManip.phi_3D_to_4D(phi, props[0], props[1], xx, xx, xx, xx)
+            call = lambda: PhiManip.phi_3D_to_4D(phi, props[0], props[1], xx, xx, xx, xn)
         else:
             site = "PhiManip.phi_4D_to_5D"
-            call = lambda: PhiManip.phi_4D_to_5D(phi, props[0], props[1], props[2], xx, xx, xx, xx, xx)
+            call = lambda: PhiManip.phi_4D_to_5D(phi, props[0], props[1], props[2], xx, xx, xx, xx, xn)
         ok, out = rec.noraise("constructor-returns", call, site=site, tags=tags)
         if not ok:
             continue
         out = np.asarray(out)
-        rec.close("admix-new-marginal", relerr(marg(out, grids + [xx], nd), phi), TOL, site=site, tags=tags)
-        ref, zstar = new_pop_ref(phi, grids, full, xx)
+        rec.close("admix-new-marginal", relerr(marg(out, grids + [xn], nd), phi), TOL, site=site, tags=tags)
+        ref, zstar = new_pop_ref(phi, grids, full, xn)
         # the deposit weights are (z* - x_k)/dx: one ulp of difference in how the last proportion is formed (1-f1-f2-f3 against
         # 1-sum) moves z* by eps and the weight by eps/dx, which on the clustered default grid is well above 1e-11
-        tol_w = TOL + 16 * (nd + 1) * 2.2e-16 / float(np.min(np.diff(xx)))
+        tol_w = TOL + 16 * (nd + 1) * 2.2e-16 / float(min(np.min(np.diff(xx)), np.min(np.diff(xn))))
         rec.close("new-pop-reference", relerr(out, ref), tol_w, site=site, tags=tags)
-        value_mean_check(rec, out, zstar, xx, phi, site, tags)
+        value_mean_check(rec, out, zstar, xn, phi, site, tags)
         # pure splits through the dedicated entry points
         if nd == 2:
             for which, fn in ((0, PhiManip.phi_2D_to_3D_split_1), (1, PhiManip.phi_2D_to_3D_split_2)):
